@@ -258,7 +258,7 @@ class Ctx:
         log("[%s] ran %d scenarios (%s) in %.1fs: %s" % (self.pid, len(scs), name, time.time() - t, p.stdout.strip()))
         return outp
 
-    def validate(self, trace, mon, consts=None, timeout=900, extra_env=None):
+    def validate(self, trace, mon, consts=None, timeout=900, extra_env=None, reset_with_state=False):
         """Validate a (concatenated) trace file against monitor module `mon` (spec/<mon>.tla defining
         MonInit, MonReset(e), MonStep(m, e), MonVerdict(m), MonStats(m)) with the generic trace driver.
         Returns ({sc: verdict-dict}, TlcResult)."""
@@ -267,7 +267,7 @@ class Ctx:
             env.update(extra_env)
         tm = "Trace_" + mon
         with open(os.path.join(SPEC, tm + ".tla"), "w") as f:
-            f.write(TRACE_TEMPLATE.replace("@MON@", mon))
+            f.write(TRACE_TEMPLATE.replace("@MON@", mon).replace("MonReset(e)", "MonResetM(mon, e)" if reset_with_state else "MonReset(e)"))
         with open(os.path.join(SPEC, tm + ".cfg"), "w") as f:
             f.write("SPECIFICATION TraceSpec\nPOSTCONDITION TraceAccepted\nCHECK_DEADLOCK FALSE\n")
             if consts:
